@@ -182,6 +182,7 @@ class RenameLocals(ast.NodeTransformer):
             if isinstance(n, ast.ExceptHandler) and n.name: glob_.add(n.name)
         loc = stores - params - glob_ - nested_defs
         m = {x: x+suffix for x in loc if not x.startswith('_')}
+        cnt[0] += len(m)
         class S(ast.NodeTransformer):
             def visit_Name(self, n):
                 if n.id in m: n.id = m[n.id]
@@ -196,6 +197,7 @@ class SwapIf(ast.NodeTransformer):
         self.generic_visit(node)
         if node.orelse and not (len(node.orelse)==1 and isinstance(node.orelse[0], ast.If)):
             t=node.test
+            cnt[0] += 1
             nt = t.operand if isinstance(t, ast.UnaryOp) and isinstance(t.op, ast.Not) else ast.UnaryOp(op=ast.Not(), operand=t)
             return ast.copy_location(ast.If(test=nt, body=node.orelse, orelse=node.body), node)
         return node
